@@ -84,6 +84,7 @@ class Collector(object):
         self.solver_seconds = 0.0
         self.dropped_calls = []   # logging calls etc dropped (A-LOG)
         self.assumed = set()      # names of contracts assumed at call sites
+        self.call_sites = {}      # (caller, callee, site) -> feasible outcomes of the assumed contract
 
     def record(self, name, kind, status, detail='', model=None, seconds=0.0,
                backend='z3', src='', bounded=None):
